@@ -20,6 +20,8 @@ pub struct PacketConn<RW: Read + Write> {
     // write variables
     to_write: Vec<u8>,
     seq: u8,
+    // kind of the first failed transport write, reported (again) by the next flush
+    write_failed: Option<io::ErrorKind>,
 }
 
 impl<W: Read + Write> Write for PacketConn<W> {
@@ -36,6 +38,10 @@ impl<W: Read + Write> Write for PacketConn<W> {
 
     fn flush(&mut self) -> io::Result<()> {
         self.maybe_end_packet()?;
+        if let Some(kind) = self.write_failed {
+            // e.g. a write that failed while a result writer was being dropped
+            return Err(io::Error::new(kind, "an earlier write to the client failed"));
+        }
         self.rw.flush()
     }
 }
@@ -52,6 +58,7 @@ impl<RW: Read + Write> PacketConn<RW> {
 
             to_write: vec![0, 0, 0, 0],
             seq: 0,
+            write_failed: None,
             rw,
         }
     }
@@ -65,7 +72,10 @@ impl<W: Read + Write> PacketConn<W> {
             self.to_write[3] = self.seq;
             self.seq = self.seq.wrapping_add(1);
 
-            self.rw.write_all(&self.to_write[..])?;
+            if let Err(e) = self.rw.write_all(&self.to_write[..]) {
+                self.write_failed.get_or_insert(e.kind());
+                return Err(e);
+            }
             self.to_write.truncate(4); // back to just header
         }
         Ok(())
